@@ -34,7 +34,7 @@ LEN = "core::slice::<impl [T]>::len(%s)" % DATA
 TRY_INTO = "core::convert::TryInto::try_into"
 
 
-def lit_of(A, c):
+def lit_of(A, c, F=None):
     """canonical literal: ('cmp', l, op, r) | ('ins', frozenset(values) , negated) | None"""
     if c.kind == "expr":
         t = A.comparison(c)
@@ -52,9 +52,9 @@ def lit_of(A, c):
             if H.pat_is_catchall(c.pat):
                 vals = set()
                 for q in c.prior:
-                    vals |= T.pat_values(q, None)[0]
+                    vals |= T.pat_values(q, F)[0]
                 return ("ins", frozenset(vals), True)
-            return ("ins", frozenset(T.pat_values(c.pat, None)[0]), False)
+            return ("ins", frozenset(T.pat_values(c.pat, F)[0]), False)
         except T.Unreadable:
             return None
     return None
@@ -110,7 +110,7 @@ def run(ctx):
         # ---- classify sites
         sites = []
         for s in A.sites:
-            lits = [lit_of(A, c) for c in s.conds]
+            lits = [lit_of(A, c, F) for c in s.conds]
             node = H.strip_block(s.node) if s.node else {}
             c = H.ctor(node) or ""
             sites.append({"s": s, "lits": lits, "ctor": c, "node": node, "kind": "ok" if s.wrappers == [OK] else "err" if s.wrappers == [ERR] else "?"})
@@ -127,7 +127,7 @@ def run(ctx):
                 continue
             ctx.oblige("C08|class|precedence|%d" % x["s"].seq, cla0 in x["lits"], "result %s is reachable before the class check" % A.site_str(x["s"])["result"][:60], cfg=cfg, where=H.line(x["node"]), nontrivial=False)
         for t in A.tries:
-            ctx.oblige("C08|class|precedence|try%d" % t.seq, cla0 in [lit_of(A, c) for c in t.conds], "an error exit is reachable before the class check", cfg=cfg, where=H.line(t.node), nontrivial=False)
+            ctx.oblige("C08|class|precedence|try%d" % t.seq, cla0 in [lit_of(A, c, F) for c in t.conds], "an error exit is reachable before the class check", cfg=cfg, where=H.line(t.node), nontrivial=False)
 
         def ins_of(lits):
             """set of instruction values admitted by the literals (over 0..255)"""
@@ -170,11 +170,11 @@ def run(ctx):
             for x in errs:
                 ctx.oblige(key + "|error-code|%d" % x["s"].seq, x["ctor"] == STATUS + "IncorrectDataParameter", "instruction %d length error is reported as %s" % (v, x["ctor"]), cfg=cfg, where=H.line(x["node"]))
             # `?` exits in the arm
-            tr = [t for t in A.tries if ins_of([lit_of(A, c) for c in t.conds]) == {v}]
+            tr = [t for t in A.tries if ins_of([lit_of(A, c, F) for c in t.conds]) == {v}]
             good = len(tr) == sp["tries"]
             if good and tr:
                 e = H.strip_block(tr[0].node)
-                good = H.conversion_impl(e) == "<ctap1::ControlByte as core::convert::TryFrom<u8>>" and A.desc(H.call_args(e)[0]) == "param:apdu.p1" and not others([lit_of(A, c) for c in tr[0].conds])
+                good = H.conversion_impl(e) == "<ctap1::ControlByte as core::convert::TryFrom<u8>>" and A.desc(H.call_args(e)[0]) == "param:apdu.p1" and not others([lit_of(A, c, F) for c in tr[0].conds])
             ctx.oblige(key + "|p1", good, "instruction %d: P1 is not validated through ControlByte::try_from(p1)? before the length checks" % v if sp["tries"] else "instruction %d has an unexpected `?` exit" % v, cfg=cfg, where=where)
             # fields
             st = H.strip_block(ok["node"]["args"][0]) if ok["node"].get("k") == "call" and ok["node"].get("args") else {}
